@@ -77,7 +77,7 @@ TEXT_REDIRECTS = [
 # every `&<simple expr>.to_string()` in encoder/text.rs formats an f64 or i64 sample value, bound,
 # quantile or timestamp: replaced by the opaque token function (type-directed through a trait)
 TEXT_REGEX_REDIRECTS = [
-    ("src/encoder/text.rs", r"&([A-Za-z_][A-Za-z0-9_]*(?:\.[A-Za-z_][A-Za-z0-9_]*\(\))*)\.to_string\(\)", r"&crate::__vsup::num_token(\1)", 2),
+    ("src/encoder/text.rs", r"\b([A-Za-z_][A-Za-z0-9_]*(?:\.[A-Za-z_][A-Za-z0-9_]*\(\))*)\.to_string\(\)", r"crate::__vsup::num_token(\1)", 2),
 ]
 TEXT_ASSUMPTION = "std number formatting is replaced by opaque injective tokens at every `&<expr>.to_string()` call site in encoder/text.rs (f64::to_string x3, i64::to_string; regex rewrite) and `format!(\"{:?}\", metric_type).to_lowercase()` by the table counter/gauge/summary/untyped/histogram (exact-text rewrite in the scratch copy): that std's shortest round-trip Display/FromStr of f64 is faithful (finite values bit-exact, inf/NaN preserved) and that derive(Debug) prints the variant name are ASSUMED; a full parser round trip is not run inside the verifier"
 FMT_ASSUMPTION = "std format! is replaced by its contract at the 5 call sites whose result is used functionally (desc.rs `format!(\"${}\", label_name)` -> \"$\" ++ name; metrics.rs build_fq_name's three joins and registry.rs gather's prefix join -> a ++ \"_\" ++ b) by exact-text rewrite in the scratch copy; every other format! builds an error message and is stubbed to the empty string. Reason: std::fmt::write does not terminate under CBMC even on concrete arguments (measured > 5 min)"
